@@ -384,6 +384,24 @@ var c07Profile = &sim.Profile{
 }
 
 var c07Templates = []sim.Template{
+	{Name: "password-reset-of-one-account-from-another-accounts-session", F: func(s *sim.Sim) []*sim.Action {
+		// A and B both hold remember cookies; a browser that is logged in as A completes B's password
+		// recovery: B's cookies die, A's do not (a copy of A's cookie was put aside on a third browser
+		// before, because the reset legitimately clears the rm cookie of the browser it is done on)
+		if !s.RememberActive() || !s.Cfg.Has("recover") || !s.Cfg.Has("auth") || len(s.Br) < 3 {
+			return nil
+		}
+		free := func(u *world.User) bool { return u.TOTPSecretKey == "" && u.SMSPhone == "" && u.Confirmed }
+		a := findAcct(s, free)
+		b := findAcct(s, free, a)
+		if a < 0 || b < 0 {
+			return nil
+		}
+		e := act("recover_end", 0, b, "current")
+		e.Cls2 = "fresh"
+		return []*sim.Action{act("login", 0, a, "ok", "rm", "true"), act("steal", 2, -9, "live"), act("login", 1, b, "ok", "rm", "true"),
+			act("recover_start", 0, b, ""), e, act("visit", 2, -9, "", "route", "/public"), act("dropsid", 1, -9, ""), act("visit", 1, -9, "", "route", "/public")}
+	}},
 	{Name: "logout-is-the-first-request-of-a-cookie-only-browser", F: func(s *sim.Sim) []*sim.Action {
 		// the browser was restarted (session gone, remember cookie kept) and the first thing the user does
 		// is log out: the cookie is rotated by the middleware and deleted by the logout in ONE response
